@@ -79,6 +79,18 @@ class PROP(Prop):
                                         evs.append("d" + good.hex())
                                         ops.append(cligen.call_op(reqj, R=",".join(evs)))
                                     cs.append(Case(cligen.cli_line(proto, slave, ops), {"proto": proto, "drop": drop, "npend": npend, "late": late, "exp": exp, "slave": slave}))
+        # a long-lived TCP client: after more than a whole cycle of the 16-bit transaction id a call is abandoned while it waits for its
+        # reply; the late reply must still be told apart from the next call's own reply (a header mismatch, never success)
+        slave = rng.randrange(1, 248)
+        ops = []
+        nlong = 65536 + rng.randrange(3, 40)
+        for j in range(nlong):
+            ops.append(cligen.call_op(("RHR", j & 0xFFFF, 1), R="d" + cligen.frame("tcp", j & 0xFFFF, slave, bytes([3, 2, 0, 7])).hex()))
+        ops.append(cligen.call_op(("RHR", 1, 1), R="p", drop="0"))
+        late = cligen.frame("tcp", nlong & 0xFFFF, slave, mb.spec_rsp_pdu(("RHR", [0xDEAD])))
+        good = cligen.frame("tcp", (nlong + 1) & 0xFFFF, slave, mb.spec_rsp_pdu(("RHR", [0xBEEF])))
+        ops.append(cligen.call_op(("RHR", 2, 1), R="d%s,d%s" % (late.hex(), good.hex())))
+        cs.append(Case(cligen.cli_line("tcp", slave, ops), {"proto": "tcp", "drop": 0, "npend": 1, "late": True, "longlate": nlong, "exp": [], "slave": slave}))
         # abandoned in the RECEIVE phase after a fragment of the reply has already been read: the fragment must not be taken for
         # (the start of) the next call's reply -- every fragment length of a short reply and of a reply announcing a long frame
         for proto in ("tcp", "rtu"):
@@ -154,6 +166,16 @@ class PROP(Prop):
                     return "synchronous call %d (%s): %s, want %s" % (i, m["scen"][i], got[:60], want)
             return None
         rs = cligen.split_results(c.impl)
+        if m.get("longlate"):
+            if "PANIC" in (c.impl or "") or len(rs) != m["longlate"] + 2:
+                return "long-lived client: panic / result count %d" % len(rs)
+            bad = [i for i, x in enumerate(rs[:m["longlate"]]) if not x.startswith("OK:RHR:7")]
+            if bad:
+                return "long-lived client: exchange %d returned %s" % (bad[0], rs[bad[0]][:60])
+            last = cligen.res_and_w(rs[-1])[0]
+            if last.startswith("OK:"):
+                return "after %d exchanges: the late reply to the abandoned request was returned as success: %s" % (m["longlate"], last[:60])
+            return None if last.startswith("HM:") else "after %d exchanges: the late reply was not reported as a header mismatch: %s" % (m["longlate"], last[:60])
         if len(rs) != 3:
             return "result count: %s" % (c.impl or "")[:80]
         stream = bytearray()
